@@ -58,6 +58,17 @@ def positions(b):
     return {str(k): float(v) for k, v in b._holdings_quantity.items() if not isinstance(k, Cash) and v != 0}
 
 
+def tr_view(tr):
+    """what the track record shows through its public container interface"""
+    out = [len(tr)]
+    for i in list(range(len(tr))) + [-1, len(tr)]:
+        try:
+            out.append(id(tr[i]))
+        except Exception as ex:
+            out.append(type(ex).__name__)
+    return out
+
+
 def probe_state(sb, ref, cs, fee, faults):
     """All probes for one (state, fault assignment).  Returns list of (probe, messages, nontrivial)."""
     out = []
@@ -142,6 +153,7 @@ def probe_state(sb, ref, cs, fee, faults):
         b = fresh()
         pre_pos = positions(b)
         pre_len = len(b.track_record)
+        pre_view = tr_view(b.track_record)
         pre_equity = equity(b)
         bm = fresh()
         try:
@@ -196,6 +208,9 @@ def probe_state(sb, ref, cs, fee, faults):
                 msgs.append("rebalance raised %r but positions changed from %r to %r" % (raised, pre_pos, positions(b)))
             if len(b.track_record) != pre_len:
                 msgs.append("rebalance raised but the track record grew")
+            elif tr_view(b.track_record) != pre_view:
+                msgs.append("rebalance raised %r and the track record no longer reads as before (length, entries by index, last, one past the end): %r -> %r"
+                            % (raised, pre_view, tr_view(b.track_record)))
             if not (fclose(equity(b), pre_equity) or fclose(equity(b), pre_equity_marked)):
                 msgs.append("rebalance raised but cash+margins moved from %r (marked to market: %r) to %r"
                             % (pre_equity, pre_equity_marked, equity(b)))
